@@ -120,6 +120,8 @@ func execLine(line string) {
 		execTx(f)
 	case "tc":
 		execTc(f)
+	case "lp":
+		execLp(f)
 	case "kv":
 		execKv(f)
 	case "iv":
